@@ -14,6 +14,15 @@ import (
 	"github.com/westerndigitalcorporation/blb/pkg/wal"
 )
 
+// TestVerifC06SyncChild is the child half of the system-call witness (run under strace by TestVerifC06).
+func TestVerifC06SyncChild(t *testing.T) {
+	dir := os.Getenv("VERIF_C06_SYNCDIR")
+	if dir == "" {
+		t.Skip("child of the sync witness")
+	}
+	c06.SyncWitnessChild(dir)
+}
+
 func TestVerifC06(t *testing.T) {
 	if !vw.Enabled() {
 		t.Skip("verification harness: run through /verif/bin/check")
@@ -30,6 +39,14 @@ func TestVerifC06(t *testing.T) {
 	vw.Stat(fmt.Sprintf("tree.fix.drop=%v.ro=%v.guard=%v", fix.Drop, fix.RO, fix.Guard), 1)
 	if !c06.HooksPresent() {
 		t.Fatalf("pkg/verifhook call sites are missing from pkg/wal: apply /verif/hooks/wal-hooks.patch (hooks commit) first")
+	}
+
+	// do the hook markers of the sync sites really enclose an fsync system call?
+	if avail, pairs, missing := c06.SyncWitness(base, "TestVerifC06SyncChild$"); !avail {
+		vw.Stat("syncwitness.unavailable", 1)
+	} else {
+		vw.Stat("syncwitness.pairs", int64(pairs))
+		vw.Stat("syncwitness.without-fsync", int64(len(missing)))
 	}
 
 	nsmall := vw.Scale(130, 2500)
